@@ -551,6 +551,14 @@ class World(object):
                 if self.genkind == 'int':
                     ev['g'] = self.m.id_generator.peek() - 1
             return ev, 'none'
+        if name == 'BatchRelate':
+            ev.update({'a': act[1]})
+            a = self.schema['assocs'][act[1] - 1]
+            found = [x for x in self.m.associations
+                     if x.rel_id == a['rel'] and x.target_link.from_metaclass.kind.upper() == a['src'].upper()
+                     and x.source_link.from_metaclass.kind.upper() == a['tgt'].upper() and list(x.source_keys) == a['skeys']]
+            found[0].batch_relate()
+            return ev, 'none'
         if name == 'LoadInto':
             # a second loader that holds rows only populates the existing metamodel
             rows = act[1]
